@@ -36,7 +36,7 @@ const SELECTORS: &[&str] = &[
     "div", ".b\\", "##", ".x1",
 ];
 const STYLES: &[&str] = &["color: red", "display: block !important", "margin: 0"];
-const SCRIPTS: &[&str] = &["set, a, 1", "set, b, 2", "abort, x", "acis, y", "noop", "abort, x.y", "set, a, 2"];
+const SCRIPTS: &[&str] = &["set, a, 1", "set, b, 2", "abort, x", "acis, y", "noop", "abort, x.y", "set, a, 2", "perm, z", "p1, z", "perm, z"];
 
 fn b64(data: &[u8]) -> String {
     const T: &[u8; 64] = b"ABCDEFGHIJKLMNOPQRSTUVWXYZabcdefghijklmnopqrstuvwxyz0123456789+/";
@@ -52,13 +52,16 @@ fn b64(data: &[u8]) -> String {
     o
 }
 fn simple(name: &str, aliases: &[&str], content: &str) -> Resource {
+    simple_perm(name, aliases, content, 0)
+}
+fn simple_perm(name: &str, aliases: &[&str], content: &str, perm: u8) -> Resource {
     Resource {
         name: name.to_string(),
         aliases: aliases.iter().map(|s| s.to_string()).collect(),
         kind: ResourceType::Mime(MimeType::ApplicationJavascript),
         content: b64(content.as_bytes()),
         dependencies: vec![],
-        permission: Default::default(),
+        permission: PermissionMask::from_bits(perm),
     }
 }
 fn resources() -> Vec<Resource> {
@@ -66,6 +69,8 @@ fn resources() -> Vec<Resource> {
         simple("set.js", &["set-constant.js"], "SET({{1}},{{2}});"),
         simple("abort.js", &["acis.js"], "ABORT[{{1}}];"),
         simple("noop.js", &[], "NOOP();"),
+        simple_perm("perm.js", &[], "PERM[{{1}}];", 3),
+        simple_perm("p1.js", &[], "P1[{{1}}];", 1),
     ]
 }
 
@@ -300,13 +305,14 @@ struct Expected {
     gh: bool,
 }
 
-fn reference(lines: &[String], host: &str, dom: &str) -> Expected {
+fn reference(lines: &[String], perms: &[u8], req: &dyn Fn(&str) -> u8, host: &str, dom: &str) -> Expected {
     let s = s_host(host, dom);
     let mut yes: BTreeSet<Content> = BTreeSet::new(); // content of rules covering the host
     let mut no: BTreeSet<Content> = BTreeSet::new(); // content excepted for the host
     let mut generic: BTreeSet<String> = BTreeSet::new();
     let mut gh = false;
-    for l in lines {
+    let mut granted: BTreeMap<String, u8> = BTreeMap::new(); // union of the permissions of covering +js rules
+    for (li, l) in lines.iter().enumerate() {
         match parse_filter(l, false, Default::default()) {
             Ok(ParsedFilter::Network(_)) => {
                 if let Some(h) = l.strip_prefix("@@||").and_then(|x| x.strip_suffix("^$generichide")) {
@@ -335,6 +341,9 @@ fn reference(lines: &[String], host: &str, dom: &str) -> Expected {
         if covers_neg {
             if t.unhide { yes.insert(t.content.clone()); } else { no.insert(t.content.clone()); }
         }
+        if let (Content::Script(a), true) = (&t.content, (covers_pos && !t.unhide) || (covers_neg && t.unhide)) {
+            *granted.entry(a.clone()).or_insert(0) |= perms.get(li).copied().unwrap_or(0);
+        }
     }
     let mut e = Expected { gh, ..Default::default() };
     let blanket = no.contains(&Content::Script(String::new()));
@@ -350,7 +359,10 @@ fn reference(lines: &[String], host: &str, dom: &str) -> Expected {
         match c {
             Content::Hide(s) => { e.hide.insert(s.clone()); }
             Content::Proc(j) => { e.proc_.insert(j.clone()); }
-            Content::Script(a) => { if !blanket { e.scripts.insert(a.clone()); } }
+            Content::Script(a) => {
+                // injected when the union of the permissions of the covering rules meets the resource's requirement
+                if !blanket && req(a) & !granted.get(a).copied().unwrap_or(0) == 0 { e.scripts.insert(a.clone()); }
+            }
         }
     }
     if !gh {
@@ -431,7 +443,8 @@ struct Run {
     got: Value,
 }
 
-fn run_case(lines: &[String], url: &str) -> Option<Run> {
+fn run_case(lines: &[String], perms: &[u8], url: &str) -> Option<Run> {
+    let opts = |p: u8| adblock::lists::ParseOptions { permissions: PermissionMask::from_bits(p), ..Default::default() };
     let req = Request::new(url, url, "document").ok()?;
     let host = req.hostname.clone();
     if host.is_empty() {
@@ -481,7 +494,11 @@ fn run_case(lines: &[String], url: &str) -> Option<Run> {
     );
 
     // --- engine
-    let mut engine = Engine::from_rules(lines.iter(), Default::default());
+    let mut set = adblock::FilterSet::new(false);
+    for (l, p) in lines.iter().zip(perms.iter()) {
+        set.add_filters([l], opts(*p));
+    }
+    let mut engine = Engine::from_filter_set(set, true);
     engine.use_resources(resources());
     let res = engine.url_cosmetic_resources(url);
     let d = dump_cosmetic(&engine);
@@ -490,8 +507,8 @@ fn run_case(lines: &[String], url: &str) -> Option<Run> {
     let mut mrules = vec![];
     let mut table: BTreeMap<String, u64> = BTreeMap::new();
     let mut candidates: BTreeSet<String> = BTreeSet::new();
-    for l in lines {
-        if let Ok(ParsedFilter::Cosmetic(f)) = parse_filter(l, false, Default::default()) {
+    for (l, p) in lines.iter().zip(perms.iter()) {
+        if let Ok(ParsedFilter::Cosmetic(f)) = parse_filter(l, false, opts(*p)) {
             match model_rule(l, &f) {
                 Ok(m) => {
                     for x in &m.locations {
@@ -534,11 +551,20 @@ fn run_case(lines: &[String], url: &str) -> Option<Run> {
     let mut present: Vec<String> = vec![];
     let mut total = 0usize;
     let mut blocks: HashMap<String, String> = HashMap::new();
+    let mut reqs: BTreeMap<String, u8> = BTreeMap::new();
     for c in &candidates {
         if c.is_empty() {
             continue;
         }
-        let b = store.get_scriptlet_resources([(c.as_str(), PermissionMask::default())]);
+        let b = store.get_scriptlet_resources([(c.as_str(), PermissionMask::from_bits(255))]);
+        // permission requirement of the candidate, probed through the public API
+        let mut need = 3u8;
+        for m in 0u8..4 {
+            if !store.get_scriptlet_resources([(c.as_str(), PermissionMask::from_bits(m))]).is_empty() {
+                need &= m;
+            }
+        }
+        reqs.insert(c.clone(), need);
         if b.is_empty() {
             failures.push(format!("harness assumption: +js({}) does not resolve", c));
             continue;
@@ -556,7 +582,12 @@ fn run_case(lines: &[String], url: &str) -> Option<Run> {
     }
 
     // --- oracle
-    let want = reference(lines, &host, &dom);
+    let reqf = |a: &str| -> u8 { reqs.get(a).copied().unwrap_or(0) };
+    let want = reference(lines, perms, &reqf, &host, &dom);
+    let noreq = |_: &str| -> u8 { 0 };
+    let want_noperm = reference(lines, perms, &noreq, &host, &dom);
+    let perm_withheld = want_noperm.scripts.len() > want.scripts.len();
+    let perm_injected = want.scripts.iter().any(|a| reqf(a) != 0);
     let canon = |s: &String| -> String { serde_json::from_str::<Value>(s).map(|v| v.to_string()).unwrap_or(s.clone()) };
     let got = Expected {
         hide: res.hide_selectors.iter().cloned().collect(),
@@ -584,14 +615,15 @@ fn run_case(lines: &[String], url: &str) -> Option<Run> {
         nk = d.hide.len() + d.unhide.len() + d.inject_script.len() + d.uninject_script.len() + d.procedural_action.len() + d.procedural_action_exception.len()
     );
     let e_res = format!(
-        "resources_eqb (hostname_cosmetic_resources {h} (build_cache {h} {uw} {rules}) {host} {dom} {gh}) {hide} {proc_} {exc} {scr} {gh}",
+        "resources_eqb_req (table_hash {req}) (hostname_cosmetic_resources {h} (build_cache {h} {uw} {rules}) {host} {dom} {gh}) {hide} {proc_} {exc} {scr} {gh}",
+        req = clist(&reqs.iter().collect::<Vec<_>>(), |(s, v)| format!("({}, {})", hxs(s), cn(v))),
         h = hfun, uw = uwf, rules = rules_coq, host = hxs(&host), dom = hxs(&dom), gh = cbool(res.generichide),
         hide = cstrs(&sets(&res.hide_selectors)), proc_ = cstrs(&sets(&res.procedural_actions)),
         exc = cstrs(&sets(&res.exceptions)), scr = cstrs(&present)
     );
     let specific = !res.procedural_actions.is_empty() || !res.exceptions.is_empty() || !present.is_empty()
         || res.hide_selectors.iter().any(|s| !d.misc_generic_selectors.contains(s));
-    let got_json = json!({"hide_selectors": sets(&res.hide_selectors), "procedural_actions": sets(&res.procedural_actions),
+    let got_json = json!({"perm_withheld": perm_withheld, "perm_injected": perm_injected, "hide_selectors": sets(&res.hide_selectors), "procedural_actions": sets(&res.procedural_actions),
         "exceptions": sets(&res.exceptions), "scripts": present, "generichide": res.generichide});
     Some(Run {
         host: host.clone(),
@@ -612,9 +644,11 @@ fn main() {
         let v: Value = serde_json::from_str(&std::fs::read_to_string(p).unwrap()).unwrap();
         let rp = &v["replay"];
         let rules = strs(&rp["rules"]);
+        let perms: Vec<u8> = rp["permissions"].as_array().map(|a| a.iter().map(|x| x.as_u64().unwrap_or(0) as u8).collect()).unwrap_or_default();
+        let perms = if perms.len() == rules.len() { perms } else { vec![0; rules.len()] };
         let url = rp["url"].as_str().unwrap_or("");
         let mut bad = false;
-        match run_case(&rules, url) {
+        match run_case(&rules, &perms, url) {
             Some(run) => {
                 println!("host={:?} domain={:?} impl={}", run.host, run.dom, run.got);
                 for f in &run.failures {
@@ -636,18 +670,22 @@ fn main() {
     sm.rule = "lists of 1-10 cosmetic rules (0-3 locations each: hosts, label-aligned and non-aligned suffixes, entity forms name.*, negations, public suffixes, IDN; ## and #@#; hide / :style / :remove / :remove-attr / :remove-class / +js(args) / blanket #@#+js(); duplicates) plus optional @@||host^$generichide, x page hosts from a 23-host universe (multi-label public suffixes co.uk, co.jp, github.io; depth up to 6; bare public suffix; localhost; IP; trailing dot; IDN) with www./x.y. prefixes; resources loaded through Engine::use_resources (3 template scriptlets with aliases); non-trivial = labels case on a dotted host, bins case with a non-empty hide/unhide bin, resources case where something host-specific (selector outside the misc store, procedural action, exception, scriptlet) is returned".into();
 
     // every host of the universe once for the label functions, then random cases
-    let n = 500 * a.scale;
+    let n = 700 * a.scale;
     for i in 0..n {
         let host = if i < HOSTS.len() { HOSTS[i].to_string() } else { gen_page_host(&mut r) };
         let rules = gen_rules(&mut r, &host);
         let url = format!("https://{}/page", host);
-        let Some(run) = run_case(&rules, &url) else { cs.stat("url_error"); continue };
+        // permissions: lists loaded with different masks (most rules with none)
+        let perms: Vec<u8> = rules.iter().map(|l| if l.contains("+js(p") && r.chance(3, 4) { r.below(4) as u8 } else if r.chance(1, 8) { r.below(4) as u8 } else { 0 }).collect();
+        let Some(run) = run_case(&rules, &perms, &url) else { cs.stat("url_error"); continue };
         sm.oracle_evaluations += 2;
-        let desc = json!({"rules": rules, "url": url, "host": run.host, "domain": run.dom, "impl": run.got});
+        let desc = json!({"rules": rules, "permissions": perms, "url": url, "host": run.host, "domain": run.dom, "impl": run.got});
         for f in &run.failures {
             sm.failure(None, f, desc.clone());
         }
         if run.got["generichide"] == json!(true) { cs.stat("generichide") }
+        if run.got["perm_withheld"] == json!(true) { cs.stat("scriptlet_withheld_for_permission") }
+        if run.got["perm_injected"] == json!(true) { cs.stat("permissioned_scriptlet_injected") }
         if run.got["scripts"].as_array().map(|x| !x.is_empty()).unwrap_or(false) { cs.stat("scripts_injected") }
         if run.got["exceptions"].as_array().map(|x| !x.is_empty()).unwrap_or(false) { cs.stat("exceptions_nonempty") }
         if run.got["procedural_actions"].as_array().map(|x| !x.is_empty()).unwrap_or(false) { cs.stat("procedural_nonempty") }
